@@ -91,6 +91,10 @@ type Config struct {
 	// WideCompare: install a KeyCompare that answers like strcmp (negative / zero / positive, here
 	// -3, 0, 3) instead of -1, 0, 1: RemoteConfig.KeyCompare documents no range
 	WideCompare bool
+	// TwoSlots: the alphabet works on two tree slots (clone either way, modify and persist both, load kept
+	// roots into the second): the structural monitors then also judge versions persisted by trees that
+	// share in-memory nodes with another live tree
+	TwoSlots bool
 	// FlushFaults: the alphabet also holds MakeRoot calls during which a class of Store calls or the
 	// i-th Marshal call fails (OpPersistFail)
 	FlushFaults bool
@@ -377,6 +381,14 @@ func Uint8Cfg(bf uint, keys []uint8, format, cache string) *Config {
 	c := &Config{BF: bf, Format: format, KS: KSUint8, Keys: sortKeys(KSUint8, ks), Vals: strs("a", "b"),
 		KeysLike: uint8(0), ValsLike: "", Cache: cache, Probes: []interface{}{uint8(3), uint8(255)}}
 	c.Name = fmt.Sprintf("uint8%v/bf%d/%s/%s", keys, bf, shortFmt(format), cache)
+	return c
+}
+
+// WithTwoSlots returns c with the two-slot alphabet, explored to depth d.
+func WithTwoSlots(c *Config, d int) *Config {
+	c.TwoSlots = true
+	c.MaxDepth = d
+	c.Name = fmt.Sprintf("two-trees/%s/depth%d", c.Name, d)
 	return c
 }
 
